@@ -507,7 +507,7 @@ fn drive<'de, R>(
 /// Same as `drive`, through the iterator adaptor: an iterator ends at the first `Ok(None)`; it is re-created to
 /// check that end of stream is stable
 fn drive_iter<'de, R>(
-	ctor: Result<(Reader<R>, BTreeMap<String, ByteBuf>), serde_avro_fast::object_container_file_encoding::FailedToInitializeReader>,
+	ctor: Result<Reader<R>, serde_avro_fast::object_container_file_encoding::FailedToInitializeReader>,
 	env: &Env,
 	ty: &Ty,
 	call_budget: usize,
@@ -516,14 +516,15 @@ fn drive_iter<'de, R>(
 	R: serde_avro_fast::de::read::Read + serde_avro_fast::de::read::take::Take + std::io::BufRead + serde_avro_fast::de::read::ReadSlice<'de>,
 	<R as serde_avro_fast::de::read::take::Take>::Take: std::io::BufRead + serde_avro_fast::de::read::ReadSlice<'de>,
 {
-	let (mut reader, meta) = match ctor {
+	// (the plain constructors `Reader::from_slice` / `Reader::from_reader`: user metadata is not asked for)
+	let mut reader = match ctor {
 		Ok(x) => x,
 		Err(e) => {
 			run.ctor_err = Some(e.to_string());
 			return;
 		}
 	};
-	run.meta = Some(meta.into_iter().map(|(k, v)| (k, v.into_vec())).collect());
+	run.meta = None;
 	let mut consecutive_err = 0;
 	for _round in 0..3 {
 		let r = catch(|| {
@@ -588,16 +589,14 @@ pub fn read_file(bytes: &[u8], env: &Env, ty: &Ty, kind: &RKind, faults: &[Sourc
 			}
 		}
 		RKind::SliceIter => {
-			let ctor = catch(|| Reader::new_and_metadata::<BTreeMap<String, ByteBuf>>(serde_avro_fast::de::read::SliceRead::new(bytes)));
+			let ctor = catch(|| Reader::from_slice(bytes));
 			match ctor {
 				Ok(c) => drive_iter(c, env, ty, call_budget, &mut run),
 				Err(p) => run.panicked = Some(p),
 			}
 		}
 		RKind::BufReaderIter => {
-			let ctor = catch(|| {
-				Reader::new_and_metadata::<BTreeMap<String, ByteBuf>>(serde_avro_fast::de::read::ReaderRead::new(std::io::BufReader::new(std::io::Cursor::new(bytes))))
-			});
+			let ctor = catch(|| Reader::from_reader(std::io::BufReader::new(std::io::Cursor::new(bytes))));
 			match ctor {
 				Ok(c) => drive_iter(c, env, ty, call_budget, &mut run),
 				Err(p) => run.panicked = Some(p),
@@ -1111,7 +1110,7 @@ pub fn exec_c11_container(scn: &c11::Scn, valid: bool, out: &mut Outcome) {
 				);
 				break;
 			}
-			if slice.meta != r.meta {
+			if slice.meta.is_some() && r.meta.is_some() && slice.meta != r.meta {
 				out.fail("C11:container:valid-file:metadata-differs", format!("plan {}", kind.label()));
 				break;
 			}
